@@ -106,7 +106,7 @@ def endStr : End → String
 
 def withQ (s : DSt) (now : Int) (out : String) : DSt × String := (s, out ++ " | " ++ queries s now)
 
-def stepLine (s : DSt) (line : String) : DSt × String :=
+def stepLine1 (s : DSt) (line : String) : DSt × String :=
   match words line with
   | ["conf", ina, tl, unit, v, tps] =>
     match ina.toInt?, tl.toInt?, unit.toInt?, unhexAll ((tps.splitOn ",").filter (· ≠ "")) with
@@ -176,6 +176,12 @@ def stepLine (s : DSt) (line : String) : DSt × String :=
         | _, _ => (s, "bad-op")
       | _ => (s, "bad-op")
   | _ => (s, "bad-op")
+
+/-- `noq <line>`: apply the line, print no answers (concurrent histories) -/
+def stepLine (s : DSt) (line : String) : DSt × String :=
+  match words line with
+  | "noq" :: rest => ((stepLine1 s (" ".intercalate rest)).1, "noq")
+  | _ => stepLine1 s line
 
 partial def loop (h : IO.FS.Stream) (out : IO.FS.Stream) (s : DSt) : IO Unit := do
   let line ← h.getLine
